@@ -3127,3 +3127,120 @@ func ruleMemoGuard(prog *Program, rep *Report, floor int, rels ...string) {
 	rep.Rules = append(rep.Rules, "E-memoguard: a method that calls itself and records handled keys in a map field of its receiver returns, before the first self-call, on the found side of a nil test of a lookup in that map ("+strings.Join(rels, ", ")+")")
 	runSynRule(prog, rep, "E-memoguard", rels, matchMemoGuard, fixtureMemoGuard, 1, floor)
 }
+
+// ---------------------------------------------------------------- C-optsticky
+
+// matchOptSticky: an exported field of a reusable type is configuration. A method may fill in a default
+// (`if w.F == 0 { w.F = d }`) or clamp it (`if max < w.F { w.F = max }`): both conditions mention the field. An
+// assignment under a condition that does not mention the field is a decision taken for this call (pretty's
+// one-space indentation for very deep trees); unless the method assigns the field unconditionally before that,
+// the decision sticks and the next call on the same instance starts from it.
+func matchOptSticky(files []*ast.File, info *types.Info) (sites []synSite, examined int) {
+	for _, f := range files {
+		for _, d := range f.Decls {
+			fd, ok := d.(*ast.FuncDecl)
+			if !ok || fd.Body == nil || fd.Recv == nil || len(fd.Recv.List) != 1 || len(fd.Recv.List[0].Names) != 1 {
+				continue
+			}
+			recv := info.Defs[fd.Recv.List[0].Names[0]]
+			if _, isPtr := recv.Type().(*types.Pointer); !isPtr {
+				continue // a value receiver is a copy: nothing sticks
+			}
+			fieldOf := func(e ast.Expr) string {
+				sel, ok := ast.Unparen(e).(*ast.SelectorExpr)
+				if !ok {
+					return ""
+				}
+				id, ok := ast.Unparen(sel.X).(*ast.Ident)
+				if !ok || info.Uses[id] != recv || !sel.Sel.IsExported() {
+					return ""
+				}
+				if v, ok := info.Uses[sel.Sel].(*types.Var); !ok || !v.IsField() {
+					return ""
+				}
+				return sel.Sel.Name
+			}
+			mentions := func(e ast.Expr, field string) bool {
+				found := false
+				ast.Inspect(e, func(n ast.Node) bool {
+					if x, ok := n.(ast.Expr); ok && fieldOf(x) == field {
+						found = true
+					}
+					return true
+				})
+				return found
+			}
+			uncond := map[string]bool{}
+			for _, s := range fd.Body.List {
+				switch x := s.(type) {
+				case *ast.AssignStmt:
+					for _, l := range x.Lhs {
+						if fl := fieldOf(l); fl != "" {
+							uncond[fl] = true
+						}
+					}
+				case *ast.IfStmt:
+					if x.Else != nil {
+						continue
+					}
+					for _, bs := range x.Body.List {
+						as, ok := bs.(*ast.AssignStmt)
+						if !ok {
+							continue
+						}
+						for li, l := range as.Lhs {
+							fl := fieldOf(l)
+							if fl == "" {
+								continue
+							}
+							examined++
+							if mentions(x.Cond, fl) || uncond[fl] {
+								continue
+							}
+							if len(as.Rhs) == len(as.Lhs) && mentions(as.Rhs[li], fl) {
+								continue // an update of the field's own value (n.BigBuf = append(n.BigBuf, '-')), not a choice
+							}
+							name := enclosingFuncName(f, fd.Pos())
+							sites = append(sites, synSite{pos: as.Pos(), file: f, key: fmt.Sprintf("%s:sticky-option:%s", name, fl),
+								msg: fmt.Sprintf("%s assigns the exported field %s under a condition that does not mention it (%s) and has not assigned it unconditionally before: the value chosen for this call is still set on the next call of the same instance", name, fl, types.ExprString(x.Cond))})
+						}
+					}
+				}
+			}
+		}
+	}
+	return
+}
+
+const fixtureOptSticky = `package fixture
+
+type W struct {
+	Indent int
+	Width  int
+	depth  int
+}
+
+func (w *W) good(depth int) {
+	if w.Width == 0 {
+		w.Width = 80
+	}
+	w.Indent = 2
+	if w.Width*3/8 < depth {
+		w.Indent = 1
+	}
+}
+
+func (w *W) bad(depth int) {
+	if w.Indent == 0 {
+		w.Indent = 2
+	}
+	if w.Width*3/8 < depth {
+		w.Indent = 1
+	}
+}
+`
+
+func ruleOptSticky(prog *Program, rep *Report, floor int, rels ...string) {
+	rep.Rules = append(rep.Rules, "C-optsticky: a pointer-receiver method assigns an exported field of its receiver at the top level of an if statement only when the condition mentions that field (default, clamp) or the method has assigned the field unconditionally before ("+strings.Join(rels, ", ")+")")
+	runSynRule(prog, rep, "C-optsticky", rels, matchOptSticky, fixtureOptSticky, 1, floor)
+}
